@@ -1,5 +1,6 @@
 """C13 - Line and column positions are correct (ast/file_info.go SourcePos + the lexer's line table)."""
 import itertools
+import time
 from vlib import *
 from C32 import go_decode
 
@@ -197,6 +198,7 @@ def run(ctx):
                 "stray bytes) + random strings over the lexer's special bytes; every text goes through the real lexer+parser with a reporter "
                 "that keeps going; SourcePos is observed for every offset 0..len, every item, every AST node, every reported error. "
                 "distinct = distinct (text, offset); non-trivial = offset > 0" % (ncorpus, maxsyms, nexh))
+    t_start = time.time()
     outs = ctx.impl("fileinfo", [{"mode": "parse", "text": t.hex()} for t in texts])
     terms, meta = [], []
     parse_panics = []
@@ -295,6 +297,7 @@ def run(ctx):
 
     header = ("From Coq Require Import List NArith Bool.\nImport ListNotations.\n"
               "From PV Require Import Common.Corr Model.Utf8 Model.Lines Model.FileInfo.\nOpen Scope N_scope.\n")
+    t_coq = time.time()
     mism, err = coq_eval_mismatches("cases_C13", header, terms, "fi_chk", shard_size=800)
     if err:
         raise RuntimeError(err)
@@ -309,6 +312,7 @@ def run(ctx):
             variant, mism = "neither; closest = repaired", mism2
         else:
             variant = "neither; closest = as-is"
+    ctx.extra["timing_s"] = {"implementation_and_oracle": round(t_coq - t_start, 1), "model_in_coq": round(time.time() - t_coq, 1), "coq_terms": len(terms)}
     ctx.extra["model_variant_matching_implementation"] = variant
     ctx.extra["parser_panics_seen_not_judged_here"] = {"count": len(parse_panics),
                                                         "smallest": min(parse_panics, key=lambda x: len(x["text"])) if parse_panics else None}
